@@ -249,3 +249,26 @@ Proof.
     destruct H as (HI1 & _ & Hab1). cbn [spec_step fst] in Hab1. apply IH; [|exact Hr].
     split; [exact HI1|]. intros k. rewrite Hab, Hab1. reflexivity.
 Qed.
+
+(* ---- across a restart ---- a clean restart of the server keeps the map: the next connection is answered from it *)
+Theorem restart_keeps_map s m : denotes s m -> exists s' t, reopen s = ROk (s', tt, t) /\ denotes s' m.
+Proof.
+  intros [HI Hm]. destruct (reopen_ok s HI) as (s' & t & Hr & HI' & Hlog & _). exists s', t. split; [exact Hr|].
+  split; [exact HI'|]. intros k. rewrite Hm. unfold abs. now rewrite Hlog.
+Qed.
+
+Theorem two_lives c segs1 rs2 es2 segs2 : Forall (fun r => wf_req r = true) rs2 ->
+  Forall2 (fun r e => enc (frame_of_req r) = Ok e) rs2 es2 -> concat segs2 = concat es2 ->
+  let '(_, s1, _) := handle_e c init (read_all (fixed Release) segs1 []) [] in
+  let m1 := apply_all [] (accepted (read_all (fixed Release) segs1 [])) in
+  exists s1' t, reopen s1 = ROk (s1', tt, t) /\
+    let '(out2, s2, t2) := handle_e c s1' (read_all (fixed Release) segs2 []) [] in
+    out2 = fst (spec_out m1 rs2) /\ t2 = TClosed /\ denotes s2 (snd (spec_out m1 rs2)).
+Proof.
+  intros Hwf He Hc. pose proof (hostile_over_engine c segs1) as H1.
+  destruct (handle_e c init (read_all (fixed Release) segs1 []) []) as [[o1 s1] t1]. destruct H1 as (_ & Hd1).
+  destruct (restart_keeps_map _ _ Hd1) as (s1' & t & Hr & Hd1'). exists s1', t. split; [exact Hr|].
+  pose proof (handler_replies rs2 es2 segs2 (apply_all [] (accepted (read_all (fixed Release) segs1 []))) Hwf He Hc) as H. unfold handler_from in H.
+  pose proof (handle_sim c (read_all (fixed Release) segs2 []) s1' _ [] Hd1') as Hs.
+  destruct (handle_e c s1' (read_all (fixed Release) segs2 []) []) as [[o2 s2] t2]. rewrite H in Hs. destruct Hs as (-> & -> & Hd). auto.
+Qed.
